@@ -539,6 +539,8 @@ func famTyped(dir string, seed int64, tier string) {
 	}
 	typedMore(dir, seed, tier, repU, wU)
 	typedTargeted(repU, wU, r)
+	typedEvolution(dir, seed, tier, repM, repU, wM, wU)
+	typedPaths(dir, seed, tier, repM, repU)
 	wM.flush()
 	wU.flush()
 	repM.write(dir)
